@@ -26,7 +26,7 @@ use std::sync::{Arc, Barrier, Mutex};
 use std::time::{Duration, Instant};
 
 const WATCHDOG: Duration = Duration::from_secs(15);
-const QUIET: Duration = Duration::from_millis(250);
+const QUIET: Duration = Duration::from_millis(200);
 const EP_NAMES: [&str; 7] = ["blocking_client", "async_client", "ws_client", "blocking_server", "async_server", "ws_server", "ws_proxy"];
 /// digest (and byte-level model run) only for streams up to this many bytes
 const DIGEST_CAP: usize = 4 << 20;
@@ -179,7 +179,7 @@ impl Wr {
                 _ => return None,
             }
         }
-        if ((is_json(kind) || kind == 'o') && w.size < 2) || (kind == 'm' && w.size != 0) || (w.zb && w.size != 0) || w.pv > 2 {
+        if ((is_json(kind) || kind == 'o') && w.size < 2) || (kind == 'm' && w.size != 0) || (w.zb && w.size != 0) || w.pv > 3 {
             return None;
         }
         Some(w)
@@ -188,6 +188,14 @@ impl Wr {
     fn path(&self, prefix: &str, tag: usize) -> Vec<u8> {
         match self.pv {
             2 => Vec::new(),
+            3 => {
+                // 17 segments: one more than the router's inline segment stack
+                let mut q = format!("{}{}", prefix, tag).into_bytes();
+                for _ in 0..15 {
+                    q.extend_from_slice(b"/s");
+                }
+                q
+            }
             1 => {
                 let mut q = format!("{}{}/\u{e9}\u{2713}", prefix, tag).into_bytes();
                 while q.len() < self.qlen {
@@ -376,7 +384,7 @@ fn expected_frames(ep: usize, ws: &[Wr]) -> Vec<Exp> {
             });
             if ep == 5 && w.kind == 'r' && w.hb == 6 && !refused {
                 // the handler pushes this notify to the calling peer before it answers
-                v.push(Exp { tag: tag + 100, kind: 'p', qfmt: 1, bfmt: 0, query: query_of("/p/", tag + 100, 0), size: 64, notify: 1, id: Some(0), body: None, opaque: false, norm_ok: true, err_ok: false });
+                v.push(Exp { tag: tag + 10000, kind: 'p', qfmt: 1, bfmt: 0, query: query_of("/p/", tag + 10000, 0), size: 64, notify: 1, id: Some(0), body: None, opaque: false, norm_ok: true, err_ok: false });
             }
         }
     }
@@ -465,7 +473,7 @@ fn analyse(s: &[u8], exps: &[Exp]) -> Parsed {
             let tot = if m.total == usize::MAX { "?".to_string() } else { m.total.to_string() };
             p.viol = Some((
                 "bytes_after_torn_frame".into(),
-                format!("frame tag {} ({} B) is cut after {} byte(s) at stream offset {} and is followed on the same connection by {}", e.tag, tot, l, pos + l, what),
+                format!("frame tag {} ({} B) is cut after {} byte(s) at stream offset {} and is followed on the same connection by {} [bytes at the frame start: {}]", e.tag, tot, l, pos + l, what, hex(&rest[..rest.len().min(96)])),
             ));
         }
         return p;
@@ -861,7 +869,7 @@ impl Script {
             ws.push(Wr::parse(t)?);
         }
         let ep: usize = w[2].parse().ok()?;
-        if ep > 6 || ws.len() > 96 {
+        if ep > 6 || ws.len() > 1100 {
             return None;
         }
         Some(Script { idx: w[1].to_string(), ep, buf: w[4].parse().ok()?, rt: w[6].parse().ok()?, chunk: w[8].parse().ok()?, stall_at: w[10].parse().ok()?, stall_ms: w[11].parse().ok()?, fault, opt, ws })
@@ -948,8 +956,20 @@ fn run_blocking_client(sc: &Script) -> Result<Capture, String> {
         });
     }
     barrier.wait();
+    let obs_stop = Arc::new(AtomicBool::new(false));
+    for _ in 0..sc.o("obs", 0).min(3) {
+        let (c, obs_stop) = (client.clone(), obs_stop.clone());
+        std::thread::spawn(move || {
+            while !obs_stop.load(SeqCst) {
+                // handles come and go while calls are in progress
+                drop(c.clone());
+                std::thread::yield_now();
+            }
+        });
+    }
     wait_until(|| g.at_stall(sc.stall_at) || done.load(SeqCst) == first.len(), WATCHDOG);
     std::thread::sleep(Duration::from_millis(sc.stall_ms));
+    peer_reply(&sock, sc.o("pr", 0), false);
     g.open();
     if !wait_until(|| done.load(SeqCst) == first.len(), WATCHDOG) {
         notes.push("writer-watchdog");
@@ -990,6 +1010,7 @@ fn run_blocking_client(sc: &Script) -> Result<Capture, String> {
         notes.push("quiet-watchdog");
     }
     g.stop.store(true, SeqCst);
+    obs_stop.store(true, SeqCst);
     let rep = rd.join().map_err(|_| "reader panicked".to_string())?;
     drop(client);
     drop(sock);
@@ -1072,8 +1093,13 @@ impl AnyClient {
     }
 }
 
-fn runtime(workers: usize) -> tokio::runtime::Runtime {
-    tokio::runtime::Builder::new_multi_thread().worker_threads(workers.clamp(1, 8)).enable_all().build().expect("runtime")
+fn runtime_mbt(workers: usize, mbt: u64) -> tokio::runtime::Runtime {
+    let mut b = tokio::runtime::Builder::new_multi_thread();
+    b.worker_threads(workers.clamp(1, 8)).enable_all();
+    if mbt > 0 {
+        b.max_blocking_threads(mbt as usize);
+    }
+    b.build().expect("runtime")
 }
 
 fn run_async_client(sc: &Script) -> Result<Capture, String> {
@@ -1091,9 +1117,10 @@ fn run_async_client(sc: &Script) -> Result<Capture, String> {
         });
         let _ = tx.send(r);
     });
-    let rt = runtime(sc.rt);
+    let rt = runtime_mbt(sc.rt, sc.o("mbt", 0));
     let g = Gate::new(sc.stall_at);
-    let limits = WebSocketLimits::default().with_assumed_peer_frame_limit(Some(64 << 20));
+    // `dl=1`: the client's default limits (16 MiB assumed peer frame limit) instead of 64 MiB
+    let limits = if sc.o("dl", 0) == 1 { WebSocketLimits::default() } else { WebSocketLimits::default().with_assumed_peer_frame_limit(Some(64 << 20)) };
     let res: Result<(TcpStream, std::thread::JoinHandle<Vec<u8>>), String> = rt.block_on(async {
         let client = if is_ws {
             AnyClient::W(WebSocketClient::connect_with_limits(&format!("ws://{}/ws", addr), limits).await.map_err(|e| format!("ws connect: {e}"))?)
@@ -1106,6 +1133,20 @@ fn run_async_client(sc: &Script) -> Result<Capture, String> {
         }
         let rd = reader_thread(sock.try_clone().unwrap(), g.clone(), sc.chunk);
         let ct = sc.o("ct", 60);
+        for _ in 0..sc.o("obs", 0).min(3) {
+            let c = client.clone();
+            // observer task: handles come and go, limits are read, while calls are in progress
+            tokio::spawn(async move {
+                for _ in 0..2000 {
+                    let c2 = c.clone();
+                    if let AnyClient::W(w) = &c2 {
+                        let _ = w.limits();
+                    }
+                    drop(c2);
+                    tokio::task::yield_now().await;
+                }
+            });
+        }
         let first: Vec<usize> = (0..sc.ws.len()).filter(|i| !is_follow(sc.ws[*i].kind)).collect();
         let later: Vec<usize> = (0..sc.ws.len()).filter(|i| is_follow(sc.ws[*i].kind)).collect();
         let done = Arc::new(AtomicUsize::new(0));
@@ -1149,6 +1190,15 @@ fn run_async_client(sc: &Script) -> Result<Capture, String> {
                 let _ = tokio::time::timeout(WATCHDOG, h).await;
             }
         }
+        peer_reply(&sock, sc.o("pr", 0), is_ws);
+        // `dropc`: the last handle is dropped while the peer is still stalled (Drop paths run with a frame abandoned)
+        let client = if sc.o("dropc", 0) == 1 && handles.is_empty() {
+            drop(client);
+            tokio::time::sleep(Duration::from_millis(30)).await;
+            None
+        } else {
+            Some(client)
+        };
         g.open();
         for (_, h) in handles {
             if tokio::time::timeout(WATCHDOG, h).await.is_err() {
@@ -1162,6 +1212,7 @@ fn run_async_client(sc: &Script) -> Result<Capture, String> {
             .collect();
         let mut batch_sent = false;
         for &tag in &later {
+            let Some(client) = &client else { break };
             if sc.ws[tag].st && matches!(sc.fault, Fault::Cancel(_)) {
                 continue; // already issued (and abandoned) while the peer was stalled
             }
@@ -1247,7 +1298,7 @@ impl HandlerErased for Gen {
         if hb == 6 {
             // re-enter the connection: push a notify to the calling peer before answering
             if let Some(peer) = ctx.peer() {
-                let t = self.0 + 100;
+                let t = self.0 + 10000;
                 let _ = peer.send_notify(&format!("/p/{}", t), NotifyBody::Raw(pat(t, 64), BodyFormat::RawBinary));
             }
         }
@@ -1293,11 +1344,62 @@ fn long_queries(sc: &Script) -> bool {
 
 /// the peer's requests go out on their own thread: with multi-MiB paths they do not fit the socket
 /// buffers, and the server stops reading while it is blocked writing to the stalled peer
-fn send_requests(mut sock: TcpStream, bytes: Vec<u8>, shutdown: bool) -> Arc<AtomicBool> {
+/// `rq`: 0 one write; 1 the first 300 bytes one byte at a time; 2 two or three pieces per request with cut
+/// points inside the header, at 48, inside the query and inside the body; 3 like 2 with a pause longer than
+/// the server's read timeout in the middle of the second request
+fn send_requests(mut sock: TcpStream, frames: Vec<Vec<u8>>, shutdown: bool, rq: u64, pause_ms: u64, seed: u64) -> Arc<AtomicBool> {
     let done = Arc::new(AtomicBool::new(false));
     let d = done.clone();
     std::thread::spawn(move || {
-        let _ = sock.write_all(&bytes);
+        let bytes: Vec<u8> = frames.concat();
+        let mut cuts: Vec<usize> = Vec::new();
+        let mut r = Rng::new(seed ^ 0x5eed);
+        match rq {
+            1 => cuts.extend(1..bytes.len().min(300)),
+            2 | 3 => {
+                let mut off = 0usize;
+                for f in &frames {
+                    let n = f.len();
+                    let ql = if n >= 48 { u64::from_le_bytes(f[24..32].try_into().unwrap()) as usize } else { 0 };
+                    let cand = [1 + r.below(47) as usize, 48, 48 + ql / 2, 48 + ql, 48 + ql + (n.saturating_sub(48 + ql)) / 2, n.saturating_sub(1)];
+                    for _ in 0..(2 + r.below(2)) {
+                        let c = *r.pick(&cand);
+                        if c > 0 && c < n {
+                            cuts.push(off + c);
+                        }
+                    }
+                    off += n;
+                }
+                cuts.sort();
+                cuts.dedup();
+            }
+            _ => {}
+        }
+        let _ = sock.set_nodelay(true);
+        let pause_at = if rq == 3 && frames.len() >= 2 { Some(frames[0].len() + frames[1].len() / 2) } else { None };
+        if let Some(pa) = pause_at {
+            cuts.push(pa);
+            cuts.sort();
+            cuts.dedup();
+        }
+        let mut prev = 0usize;
+        let mut ok = true;
+        for c in cuts.iter().copied().chain(std::iter::once(bytes.len())) {
+            if c <= prev {
+                continue;
+            }
+            if sock.write_all(&bytes[prev..c]).is_err() {
+                ok = false;
+                break;
+            }
+            prev = c;
+            if Some(c) == pause_at {
+                std::thread::sleep(Duration::from_millis(pause_ms));
+            } else if rq > 0 && c < bytes.len() {
+                std::thread::sleep(Duration::from_micros(300));
+            }
+        }
+        let _ = ok;
         if shutdown {
             let _ = sock.shutdown(Shutdown::Write);
         }
@@ -1411,7 +1513,7 @@ fn run_tcp_server(sc: &Script) -> Result<Capture, String> {
     } else {
         let (l, addr) = listener(0, sc.buf);
         l.set_nonblocking(true).map_err(|e| e.to_string())?;
-        let r = runtime(sc.rt);
+        let r = runtime_mbt(sc.rt, sc.o("mbt", 0));
         let rto = sc.o("rto", 0);
         let server = AsyncServer::new(gen_router(Some(sc))).write_timeout(wt.map(Duration::from_millis)).read_timeout((rto > 0).then(|| Duration::from_millis(rto)));
         r.spawn(async move {
@@ -1425,8 +1527,7 @@ fn run_tcp_server(sc: &Script) -> Result<Capture, String> {
     let sock = connect_small(addr, sc.buf).map_err(|e| format!("connect: {e}"))?;
     let g = Gate::new(sc.stall_at);
     let rd = reader_thread(sock.try_clone().unwrap(), g.clone(), sc.chunk);
-    let all: Vec<u8> = requests(sc).concat();
-    let _sent = send_requests(sock.try_clone().unwrap(), all, true);
+    let _sent = send_requests(sock.try_clone().unwrap(), requests(sc), true, sc.o("rq", 0), sc.o("rto", 0) + 60, fnv(sc.idx.as_bytes()));
     wait_until(|| g.at_stall(sc.stall_at), WATCHDOG);
     std::thread::sleep(Duration::from_millis(sc.stall_ms));
     g.open();
@@ -1446,7 +1547,7 @@ fn run_ws_server(sc: &Script) -> Result<Capture, String> {
     let mut notes = Vec::new();
     let (l, addr) = listener(0, sc.buf);
     l.set_nonblocking(true).map_err(|e| e.to_string())?;
-    let rt = runtime(sc.rt);
+    let rt = runtime_mbt(sc.rt, sc.o("mbt", 0));
     let reg = PeerRegistry::new();
     let lim = sc.o("lim", 0) as usize;
     let limits = WebSocketLimits::default().with_assumed_peer_frame_limit(Some(if lim > 0 { lim } else { 64 << 20 }));
@@ -1516,54 +1617,88 @@ fn run_ws_server(sc: &Script) -> Result<Capture, String> {
     let pushers: Vec<usize> = (0..sc.ws.len()).filter(|i| sc.ws[*i].kind == 'p' || sc.ws[*i].kind == 'B').collect();
     let done = Arc::new(AtomicUsize::new(0));
     let stop = Arc::new(AtomicBool::new(false));
-    let barrier = Arc::new(Barrier::new(pushers.len() + 1));
-    for &tag in &pushers {
-        let (reg, size, done, stop, barrier) = (reg.clone(), sc.ws[tag].size, done.clone(), stop.clone(), barrier.clone());
-        let method = sc.ws[tag].path_str("/p/", tag);
-        let broadcast = sc.ws[tag].kind == 'B';
+    let n_threads = pushers.len().min(16).max(1);
+    let barrier = Arc::new(Barrier::new(if pushers.is_empty() { 1 } else { n_threads + 1 }));
+    for th in 0..(if pushers.is_empty() { 0 } else { n_threads }) {
+        let mine: Vec<(usize, usize, String, bool)> = pushers.iter().copied().skip(th).step_by(n_threads).map(|t| (t, sc.ws[t].size, sc.ws[t].path_str("/p/", t), sc.ws[t].kind == 'B')).collect();
+        let (reg, done, stop, barrier) = (reg.clone(), done.clone(), stop.clone(), barrier.clone());
         std::thread::spawn(move || {
             let peer = reg.peers().into_iter().next();
             barrier.wait();
-            if let Some(peer) = peer {
-                let t0 = Instant::now();
-                loop {
-                    // 'B': through `PeerRegistry::broadcast_notify_raw` (every registered peer = this connection)
-                    let r = if broadcast {
-                        reg.broadcast_notify_raw(&method, BodyFormat::RawBinary, &pat(tag as u64, size)).remove(&peer.peer_id()).unwrap_or(Err(PeerSendError::Disconnected))
-                    } else {
-                        peer.send_notify(&method, NotifyBody::Raw(pat(tag as u64, size), BodyFormat::RawBinary))
-                    };
-                    match r {
-                        Ok(()) | Err(PeerSendError::Disconnected) => break,
-                        Err(_) => {
-                            // channel full: the embedder retries
-                            if stop.load(SeqCst) || t0.elapsed() > WATCHDOG {
-                                break;
+            for (tag, size, method, broadcast) in mine {
+                if let Some(peer) = &peer {
+                    let t0 = Instant::now();
+                    loop {
+                        // 'B': through `PeerRegistry::broadcast_notify_raw` (every registered peer = this connection)
+                        let r = if broadcast {
+                            reg.broadcast_notify_raw(&method, BodyFormat::RawBinary, &pat(tag as u64, size)).remove(&peer.peer_id()).unwrap_or(Err(PeerSendError::Disconnected))
+                        } else {
+                            peer.send_notify(&method, NotifyBody::Raw(pat(tag as u64, size), BodyFormat::RawBinary))
+                        };
+                        match r {
+                            Ok(()) | Err(PeerSendError::Disconnected) => break,
+                            Err(_) => {
+                                // channel full: the embedder retries
+                                if stop.load(SeqCst) || t0.elapsed() > WATCHDOG {
+                                    break;
+                                }
+                                std::thread::sleep(Duration::from_millis(1));
                             }
-                            std::thread::sleep(Duration::from_millis(1));
                         }
                     }
                 }
+                done.fetch_add(1, SeqCst);
             }
-            done.fetch_add(1, SeqCst);
         });
     }
-    let reqs: Vec<u8> = requests(sc).iter().map(|f| ws_frame(2, f, true)).collect::<Vec<_>>().concat();
+    let reqs: Vec<Vec<u8>> = requests(sc).iter().map(|f| ws_frame(2, f, true)).collect();
     barrier.wait();
-    let sent = send_requests(sock.try_clone().unwrap(), reqs, false);
-    wait_until(|| g.at_stall(sc.stall_at), WATCHDOG);
-    if drain.is_some() {
-        let _ = sd_tx.send(());
-        std::thread::sleep(Duration::from_millis(sc.stall_ms));
-    } else {
-        std::thread::sleep(Duration::from_millis(sc.stall_ms));
-        drop(sd_tx);
+    let sent = send_requests(sock.try_clone().unwrap(), reqs, false, sc.o("rq", 0), 60, fnv(sc.idx.as_bytes()));
+    // observers: read-only methods hammered while the connection works
+    let obs_stop = Arc::new(AtomicBool::new(false));
+    for _ in 0..sc.o("obs", 0).min(3) {
+        let (reg, obs_stop) = (reg.clone(), obs_stop.clone());
+        std::thread::spawn(move || {
+            while !obs_stop.load(SeqCst) {
+                let n = reg.len();
+                let ps = reg.peers();
+                for p in &ps {
+                    let _ = (p.is_connected(), p.peer_id(), reg.get(p.peer_id()).is_some(), reg.key_for(p.peer_id()), reg.aliases_for(p.peer_id()).len());
+                }
+                let _ = (n, reg.is_empty(), format!("{:?}", ps.first().map(|p| p.peer_id())));
+                std::thread::yield_now();
+            }
+        });
     }
+    let dat = sc.o("dat", 0);
+    let mut sd_tx = Some(sd_tx);
+    if drain.is_some() && dat == 1 {
+        // shutdown signalled before anything stalled
+        let _ = sd_tx.take().unwrap().send(());
+    }
+    wait_until(|| g.at_stall(sc.stall_at), WATCHDOG);
+    if drain.is_some() && dat == 0 {
+        let _ = sd_tx.take().unwrap().send(());
+    }
+    if sc.o("fin", 0) == 1 && wait_until(|| sent.load(SeqCst), Duration::from_secs(2)) {
+        // the peer ends its side while the writer is (possibly) blocked mid-send: the reader sees the end first
+        // (only once every request is out: the Close must not land inside a request that is still being sent)
+        let _ = sock.write_all(&ws_frame(8, &1000u16.to_be_bytes(), true));
+    }
+    std::thread::sleep(Duration::from_millis(sc.stall_ms));
     g.open();
+    if drain.is_some() && dat == 2 {
+        wait_quiet(&g);
+        let _ = sd_tx.take().unwrap().send(());
+    }
+    if drain.is_none() {
+        drop(sd_tx.take());
+    }
     if !wait_until(|| done.load(SeqCst) == pushers.len(), WATCHDOG) {
         notes.push("writer-watchdog");
     }
     stop.store(true, SeqCst);
+    obs_stop.store(true, SeqCst);
     // let the responses and pushes drain, then close from the peer's side
     if !wait_until(|| sent.load(SeqCst) || g.eof.load(SeqCst), WATCHDOG) {
         notes.push("request-watchdog");
@@ -1589,7 +1724,7 @@ fn run_ws_server(sc: &Script) -> Result<Capture, String> {
 /// `AsyncServer` through an `AsyncClient`; the responses come back through the proxy's own writer.
 fn run_ws_proxy(sc: &Script) -> Result<Capture, String> {
     let mut notes = Vec::new();
-    let rt = runtime(sc.rt);
+    let rt = runtime_mbt(sc.rt, sc.o("mbt", 0));
     // upstream server
     let (ul, uaddr) = listener(0, 0);
     ul.set_nonblocking(true).map_err(|e| e.to_string())?;
@@ -1615,8 +1750,8 @@ fn run_ws_proxy(sc: &Script) -> Result<Capture, String> {
     ws_handshake_as_client(&mut sock, "/").map_err(|e| format!("handshake: {e}"))?;
     let g = Gate::new(sc.stall_at);
     let rd = reader_thread(sock.try_clone().unwrap(), g.clone(), sc.chunk);
-    let reqs: Vec<u8> = requests(sc).iter().map(|f| ws_frame(2, f, true)).collect::<Vec<_>>().concat();
-    let sent = send_requests(sock.try_clone().unwrap(), reqs, false);
+    let reqs: Vec<Vec<u8>> = requests(sc).iter().map(|f| ws_frame(2, f, true)).collect();
+    let sent = send_requests(sock.try_clone().unwrap(), reqs, false, sc.o("rq", 0), 60, fnv(sc.idx.as_bytes()));
     wait_until(|| g.at_stall(sc.stall_at), WATCHDOG);
     std::thread::sleep(Duration::from_millis(sc.stall_ms));
     g.open();
@@ -1635,6 +1770,36 @@ fn run_ws_proxy(sc: &Script) -> Result<Capture, String> {
     rt.shutdown_background();
     let c = ws_deframe(&raw);
     Ok(Capture { second: None, rep: c.rep.clone(), ws: Some(c), notes })
+}
+
+/// `pr`: what the scripted peer sends to a client while it is stalled: 1 = 48 bytes that are no REPE header
+/// (the client's reader fails while writers are blocked), 2 = a consistent response nobody waits for (id 2^62),
+/// delivered one byte at a time
+fn peer_reply(sock: &TcpStream, pr: u64, ws: bool) {
+    let mut sock = match sock.try_clone() {
+        Ok(s) => s,
+        Err(_) => return,
+    };
+    let payload: Vec<u8> = match pr {
+        1 => vec![0xEE; 48],
+        2 => {
+            let mut f = RawFrame::request(1 << 62, false, 1, b"/late", 0, &pat(7, 300));
+            f.h.notify = 0;
+            f.to_vec()
+        }
+        _ => return,
+    };
+    let bytes = if ws { ws_frame(2, &payload, false) } else { payload };
+    let _ = sock.set_nodelay(true);
+    if pr == 2 {
+        for b in bytes.chunks(1) {
+            if sock.write_all(b).is_err() {
+                return;
+            }
+        }
+    } else {
+        let _ = sock.write_all(&bytes);
+    }
 }
 
 /// the timeout a client call is made with (`t` attribute of the writer, `ct` knob of the script)
@@ -1858,6 +2023,22 @@ fn spice(r: &mut Rng, sc: &mut Script) {
             sc.opt.insert(k.to_string(), *r.pick(vals));
         }
     };
+    set(r, "obs", &[1, 2, 3], 1, 5);
+    if ep >= 3 {
+        set(r, "rq", &[1, 2, 2, 3], 1, 3);
+    } else {
+        set(r, "pr", &[1, 2, 2], 1, 5);
+    }
+    if ep == 1 || ep == 2 {
+        set(r, "dropc", &[1], 1, 8);
+    }
+    if ep == 5 || ep == 6 {
+        set(r, "mbt", &[1, 2], 1, 4);
+    }
+    if ep == 5 {
+        set(r, "fin", &[1], 1, 5);
+        set(r, "dat", &[1, 2], 1, 4);
+    }
     match ep {
         0..=2 => set(r, "ct", &[0, 1, 20, 200], 1, 3),
         3 | 4 => {
@@ -2090,8 +2271,147 @@ fn gen_scripts(r: &mut Rng, thorough: bool) -> Vec<Script> {
             }
             push(&mut v, Script { idx: String::new(), ep, buf: small, rt: 2, chunk: 4096, stall_at: r.below(20000), stall_ms: 60, fault: Fault::None, opt, ws });
         }
+        // ---- second coverage audit: counts in a row, internal sizes, fragmented input, observers, knob pairs,
+        //      exhausted resources, exit paths
+        {
+            let kk = r.below(1000) as usize;
+            let w0 = |kind: char, size: usize| Wr { kind, size, ..Default::default() };
+            let o1 = |k: &str, v: u64| { let mut m = std::collections::BTreeMap::new(); m.insert(k.to_string(), v); m };
+            let runs_q = [1usize, 2, 7, 8, 9, 16, 17, 64, 65];
+            // body size that makes the whole frame `total` bytes (query `/x/<tag>` is 4 or 5 bytes)
+            let for_total = |total: usize, tag: usize| total.saturating_sub(48 + if tag < 10 { 4 } else { 5 });
+            // (h) frame TOTALS around the buffer sizes and the WebSocket length encodings
+            let totals = [125usize, 126, 127, 8191, 8192, 8193, 16384, 65535, 65536, 65537, 131071, 131072, 131073, 131058, 131062, 131068];
+            let ws: Vec<Wr> = totals.iter().enumerate().map(|(t, tot)| w0(if ep <= 2 { if t % 3 == 0 { 'c' } else { 'n' } } else { 'r' }, for_total(*tot, t))).collect();
+            push(&mut v, Script { idx: String::new(), ep, buf: small, rt: 2, chunk: 65536, stall_at: r.below(200000), stall_ms: 60, fault: Fault::None, opt: o1("obs", 2), ws });
+            if ep >= 3 {
+                // (g) N identical refusals / handler errors in a row, then ordinary requests: one connection with runs
+                //     of 9, 17 and 65 of one kind (quick) and one run of a PRNG-chosen length of mixed kinds; every
+                //     length and kind on its own connection in thorough
+                let refusal = |kind: usize| match kind % 4 { 0 => Wr { xr: true, ..w0('r', 10) }, 1 => Wr { ver: Some(2), ..w0('r', 10) }, 2 => Wr { hb: 1, ..w0('r', 10) }, _ => Wr { qf: Some(0), ..w0('r', 0) } };
+                let mut lists: Vec<Vec<Wr>> = Vec::new();
+                let mut ws: Vec<Wr> = Vec::new();
+                for n in [9usize, 17, 65] {
+                    ws.extend((0..n).map(|_| refusal(kk + ep)));
+                    ws.push(w0('r', 700));
+                }
+                lists.push(ws);
+                let n = *r.pick(&runs_q);
+                let mut ws: Vec<Wr> = (0..n).map(|j| refusal(j + kk)).collect();
+                ws.push(w0('r', 9000));
+                lists.push(ws);
+                if thorough {
+                    for (j, n) in [1usize, 2, 7, 8, 9, 16, 17, 64, 65, 256, 1000].iter().enumerate() {
+                        let mut ws: Vec<Wr> = (0..*n).map(|_| refusal(j)).collect();
+                        ws.push(w0('r', 9000));
+                        ws.push(w0('r', 100));
+                        lists.push(ws);
+                    }
+                }
+                for ws in lists {
+                    let mut opt = o1("rq", *r.pick(&[0u64, 1, 2]));
+                    if ep == 5 { opt.insert("cap".to_string(), *r.pick(&[1u64, 2, 256])); }
+                    push(&mut v, Script { idx: String::new(), ep, buf: 16384, rt: 2, chunk: 65536, stall_at: 0, stall_ms: 20, fault: Fault::None, opt, ws });
+                }
+                // (i) requests arriving in pieces (cut inside the header, at 48, inside query and body), long paths;
+                //     and a pause longer than the read timeout in the middle of a request
+                let ws = vec![w0('r', 9000), Wr { qlen: 3000, ..w0('r', 20000) }, w0('o', 500), Wr { qlen: 70000, ..w0('r', 10) }, w0('q', 100), w0('r', 131073)];
+                push(&mut v, Script { idx: String::new(), ep, buf: small, rt: 2, chunk: 4096, stall_at: r.below(30000), stall_ms: 50, fault: Fault::None, opt: o1("rq", 2), ws: ws.clone() });
+                if ep == 3 || ep == 4 {
+                    let mut opt = o1("rq", 3);
+                    opt.insert("rto".to_string(), 40);
+                    push(&mut v, Script { idx: String::new(), ep, buf: small, rt: 2, chunk: 65536, stall_at: 0, stall_ms: 150, fault: if kk % 2 == 0 { Fault::None } else { Fault::WTimeout(30) }, opt, ws });
+                }
+                // (k) pairs of knobs: rows of the orthogonal array OA(8, 7, 2, 2)
+                let oa: [[u8; 7]; 8] = [[0, 0, 0, 0, 0, 0, 0], [0, 0, 0, 1, 1, 1, 1], [0, 1, 1, 0, 0, 1, 1], [0, 1, 1, 1, 1, 0, 0], [1, 0, 1, 0, 1, 0, 1], [1, 0, 1, 1, 0, 1, 0], [1, 1, 0, 0, 1, 1, 0], [1, 1, 0, 1, 0, 0, 1]];
+                // (quick: two rows; for the TCP servers one of them has write timeout AND read timeout)
+                let rows: Vec<usize> = if thorough { (0..8).collect() } else if ep <= 4 { vec![4 + kk % 2, (kk + ep) % 4] } else { vec![(kk + ep) % 8, (kk + ep + 3) % 8] };
+                for row in rows {
+                    let b = oa[row];
+                    let mut opt = std::collections::BTreeMap::new();
+                    let mut fault = Fault::None;
+                    let mut ws = vec![w0('r', 70000), w0('o', 3000), Wr { hb: 5, ..w0('o', 20000) }, w0('r', 100), w0('q', 10), w0('r', 9000), Wr { hb: 5, ..w0('o', 100) }];
+                    if ep == 5 {
+                        ws.extend([w0('p', 5000), w0('B', 100), w0('p', 30000), w0('h', 200)]);
+                        opt.insert("cap".to_string(), if b[0] == 1 { 1 } else { 256 });
+                        if b[1] == 1 { opt.insert("lim".to_string(), 64); }
+                        opt.insert("off".to_string(), b[2] as u64);
+                        opt.insert("via".to_string(), b[3] as u64);
+                        if b[4] == 1 { fault = Fault::Drain(30); opt.insert("dat".to_string(), (row % 3) as u64); }
+                        if b[5] == 1 { opt.insert("mbt".to_string(), 1); }
+                        if b[6] == 1 { opt.insert("rq".to_string(), 2); }
+                    } else if ep == 6 {
+                        if b[5] == 1 { opt.insert("mbt".to_string(), 1); }
+                        if b[6] == 1 { opt.insert("rq".to_string(), 2); }
+                        if b[0] == 1 { opt.insert("obs".to_string(), 2); }
+                    } else {
+                        if b[0] == 1 { fault = Fault::WTimeout(if b[1] == 1 { 1 } else { 60 }); }
+                        if b[2] == 1 { opt.insert("rto".to_string(), if b[6] == 1 { 40 } else { 5000 }); }
+                        if ep == 3 { opt.insert("nd".to_string(), b[3] as u64); }
+                        if b[4] == 1 { opt.insert("conns".to_string(), 2); }
+                        if b[6] == 1 { opt.insert("rq".to_string(), 3); }
+                    }
+                    push(&mut v, Script { idx: String::new(), ep, buf: if b[5] == 1 { small } else { 65536 }, rt: 1 + (row % 3), chunk: 65536, stall_at: r.below(60000), stall_ms: 120, fault, opt, ws });
+                }
+            }
+            if ep == 5 {
+                // (h)(l) off-reader handlers around the default limit of 16, all slow, one blocking thread,
+                //         channel capacity 1, peer not reading, drain deadline while they are parked
+                for n in if thorough { vec![15usize, 16, 17, 40] } else { vec![*r.pick(&[15usize, 16, 17])] } {
+                    let mut ws: Vec<Wr> = (0..n).map(|j| Wr { hb: 5, ..w0('o', 2 + 700 * j) }).collect();
+                    ws.extend([w0('p', 9000), w0('r', 100), w0('B', 20)]);
+                    let mut opt = o1("cap", 1);
+                    opt.insert("mbt".to_string(), *r.pick(&[1u64, 2]));
+                    push(&mut v, Script { idx: String::new(), ep, buf: small, rt: 2, chunk: 65536, stall_at: 4000, stall_ms: 150, fault: if n % 2 == 0 { Fault::Drain(30) } else { Fault::None }, opt, ws });
+                }
+                // (g) pushes in a row against a tiny and the default-sized channel (Full results in a row)
+                for (n, cap) in if thorough { vec![(255usize, 256u64), (256, 256), (257, 256), (65, 1)] } else { vec![(*r.pick(&[17usize, 64, 65]), *r.pick(&[1u64, 2]))] } {
+                    let mut ws: Vec<Wr> = (0..n).map(|j| w0(if j % 5 == 0 { 'B' } else { 'p' }, 40 + j)).collect();
+                    ws.push(w0('r', 300));
+                    push(&mut v, Script { idx: String::new(), ep, buf: small, rt: 2, chunk: 65536, stall_at: 3000, stall_ms: 80, fault: Fault::None, opt: o1("cap", cap), ws });
+                }
+                // (m) the peer ends its side while the writer is blocked mid-send
+                let mut opt = o1("fin", 1);
+                opt.insert("cap".to_string(), 2);
+                let ws = vec![w0('r', 300000), w0('p', 70000), w0('r', 100), w0('o', 9000), w0('B', 50)];
+                push(&mut v, Script { idx: String::new(), ep, buf: small, rt: 2, chunk: 65536, stall_at: 20000, stall_ms: 120, fault: Fault::None, opt: opt.clone(), ws: ws.clone() });
+                if thorough {
+                    // … for longer than the writer's 5 s shutdown-drain timeout
+                    push(&mut v, Script { idx: String::new(), ep, buf: small, rt: 2, chunk: 65536, stall_at: 20000, stall_ms: 5600, fault: Fault::None, opt, ws });
+                }
+            }
+            if ep <= 2 {
+                // (g) calls abandoned in a row while the peer stays stalled (async, WebSocket); zero-timeout calls in a row
+                if ep >= 1 {
+                    for n in if thorough { vec![1usize, 2, 7, 8, 9, 16, 17] } else { vec![*r.pick(&[2usize, 7, 8, 9])] } {
+                        let mut ws = vec![w0('n', 5000), w0('n', 5000), w0('n', 5000)];
+                        ws.extend((0..n).map(|j| Wr { st: true, ..w0(if j % 2 == 0 { 'T' } else { 't' }, if j % 3 == 0 { 20000 } else { 200 }) }));
+                        ws.extend([w0('t', 100), w0('J', 300)]);
+                        let mut opt = o1("dropc", (n % 2) as u64);
+                        opt.insert("obs".to_string(), 1);
+                        push(&mut v, Script { idx: String::new(), ep, buf: small, rt: 1, chunk: 65536, stall_at: 0, stall_ms: 40, fault: Fault::Cancel(-1), opt, ws });
+                    }
+                }
+                let n = if thorough { 65 } else { *r.pick(&[8usize, 9, 17]) };
+                let mut ws = vec![w0('n', 3000)];
+                ws.extend((0..n).map(|j| Wr { tv: 2, ..w0(if j % 2 == 0 { 'T' } else { 'J' }, 50 + j) }));
+                // (h) batches of 63, 64, 65 requests (64 batch workers)
+                let bn = if thorough { 65 } else { *r.pick(&[63usize, 64, 65]) };
+                ws.extend((0..bn).map(|j| w0('b', 2 + j % 40)));
+                // (i)(m) the peer sends bytes that are no frame (the reader fails while writers are blocked) or a late
+                //        response one byte at a time
+                let opt = o1("pr", 1 + (kk % 2) as u64);
+                let fault = if ep == 0 { Fault::WTimeout(400) } else { Fault::None };
+                push(&mut v, Script { idx: String::new(), ep, buf: small, rt: 2, chunk: 65536, stall_at: 1000, stall_ms: 60, fault, opt, ws });
+                if thorough && ep == 2 {
+                    // (h) the client's DEFAULT assumed peer limit (16 MiB): a frame of exactly the limit, and one byte more
+                    let ws = vec![w0('n', (16 << 20) - 52), w0('n', (16 << 20) - 51), w0('n', 100)];
+                    push(&mut v, Script { idx: String::new(), ep, buf: 0, rt: 2, chunk: 65536, stall_at: 1 << 20, stall_ms: 50, fault: Fault::None, opt: o1("dl", 1), ws });
+                }
+            }
+        }
         // random scripts
-        let n_random = if thorough { 60 } else { 3 };
+        let n_random = if thorough { 60 } else { 2 };
         for _ in 0..n_random {
             let n = 1 + r.below(32) as usize;
             let budget: usize = if thorough { 6 << 20 } else { 2 << 20 };
@@ -2146,6 +2466,11 @@ fn main() {
             eprintln!("[torn] slow case ({:?}): {}", t0.elapsed(), &line[..line.len().min(300)]);
         }
         out.case(&op, &obs, nt);
+        if out.oracle_failures >= 12 {
+            // a broken tree: the failing inputs are on record, no need to run the rest
+            out.count("stopped-after-12-oracle-failures");
+            break;
+        }
     }
     out.finish();
 }
